@@ -238,10 +238,35 @@ def contracts(env):
                  ('wait_blocks_before_clone_without_mutation', ens_hp_hold_blocks_before_clone),
                  ('reaches_repository_only_when_free', ens_hp_free_proceeds)],
         covers=['raise:ReachedClone', 'raise:NothingToDo', 'raise:NotMyJob']))
+    cs.append(Contract(
+        'bert_e.workflow.gitwaterflow.commands:after_pull_request',
+        args={'job': 'PullRequestJob', 'pr_id': 'opt[str]'}, setup=apr_setup,
+        ensures=[('records_exactly_the_given_numeric_id_as_a_dependency', ens_apr)],
+        covers=['return', 'raise:IncorrectCommandSyntax']))
     return cs
 
 
+# ---------------------------------------------------------------- the after_pull_request option handler
+def apr_setup(I, args):
+    job = args['job']
+    I.heap[job.oid]['bert_e'] = I.alloc_obj(None, None, {'client': I.alloc_obj(None, None, {'login': 'robot'})})
+    deps = I.alloc_set(I.fresh('after_pull_request', 'fset[str]'))
+    I.set_attr(I.get_attr(job, 'settings'), 'after_pull_request', deps)
+    I.ghost['deps0'] = I.set_value(deps)
+
+
+def ens_apr(job, pr_id, out, G):
+    deps = job.settings.after_pull_request
+    if pr_id is None:
+        return out.raised(X.IncorrectCommandSyntax)
+    # a numeric id is recorded as ONE dependency (the id itself); anything else changes nothing
+    return out.returned and (deps == G.deps0 or deps == G.deps0 | {pr_id}) \
+        and all(x in deps for x in G.deps0) and all(x in G.deps0 or x == pr_id for x in deps)
+
+
 def extra(rep, tier, seed, budget):
+    from specs import shared_facts as _sf
+    _sf.add_facts(rep, _sf.init_settings_fresh(), 'Reactor.init_settings (whole option registry)')
     from bounded import integrate as _integ
     _integ.system_histories(rep, tier, seed, ['C12_holds'])
 
